@@ -7,6 +7,7 @@ import (
 
 	"verif/harness/internal/c01"
 	"verif/harness/internal/c05"
+	"verif/harness/internal/c08"
 )
 
 func main() {
@@ -17,6 +18,8 @@ func main() {
 	switch os.Args[1] {
 	case "c01":
 		os.Exit(c01.Main(os.Args[2:]))
+	case "c08":
+		os.Exit(c08.Main(os.Args[2:]))
 	case "c05":
 		os.Exit(c05.Main(os.Args[2:]))
 	}
